@@ -191,7 +191,8 @@ theorem viRead_arg2 (s s1 : VS) (k a2 : Int) (h : viRead s = Res.ok k s1) :
 /-! ### `vi_motionln` -/
 
 /-- the target row of the line motion `k` after the operator `cmd` from row `row` (before the clamp at
-0), for the keys that read nothing further: `RET + - _ j k G H L M` and the doubled operator letter -/
+0), for the keys that read nothing further: `RET + - _ j k G H L M` and the doubled operator letter (a NUL key
+at top level, `cmd = 0`, is not one) -/
 def lnTarget (s : VS) (row cmd k : Int) : Option Int :=
   let cnt := cntOf s
   let n := lenOf s
@@ -205,7 +206,7 @@ def lnTarget (s : VS) (row cmd k : Int) : Option Int :=
   else if k == 72 then some (min (s.ed.xtop + cnt - 1) (n - 1))
   else if k == 76 then some (min (s.ed.xtop + s.xrows - 1 - cnt + 1) (n - 1))
   else if k == 77 then some (min (s.ed.xtop + s.xrows / 2) (n - 1))
-  else if k == cmd then some (min (row + cnt - 1) (n - 1))
+  else if cmd != 0 && k == cmd then some (min (row + cnt - 1) (n - 1))
   else none
 
 /-- a line-motion key: `vi_motionln` returns the key and the target row -/
@@ -246,7 +247,7 @@ theorem viMotionln_line (row cmd : Int) (s s1 : VS) (k t : Int) (hk : viRead s =
   by_cases h10 : (k == 77) = true
   · rw [if_pos h10] at ht ⊢; cases ht; rfl
   rw [if_neg h10] at ht ⊢
-  by_cases h11 : (k == cmd) = true
+  by_cases h11 : (cmd != 0 && k == cmd) = true
   · rw [if_pos h11] at ht ⊢; cases ht; rfl
   rw [if_neg h11] at ht ⊢
   cases ht
@@ -275,7 +276,7 @@ theorem viMotionln_other (row cmd : Int) (s s1 : VS) (k : Int) (hk : viRead s = 
   have c8 : ¬ ((k == 72) = true) := by simp [a9]
   have c9 : ¬ ((k == 76) = true) := by simp [a10]
   have c10 : ¬ ((k == 77) = true) := by simp [a11]
-  have c11 : ¬ ((k == cmd) = true) := by simp [a12]
+  have c11 : ¬ ((cmd != 0 && k == cmd) = true) := by simp [a12]
   have c12 : ¬ ((k == 37 && (s.arg1 != 0 || s.arg2 != 0)) = true) := by simp [a13]
   rw [if_neg c1, if_neg c2, if_neg c3, if_neg c4, if_neg c5, if_neg c6, if_neg c7, if_neg c8, if_neg c9,
     if_neg c10, if_neg c11, if_neg c12]
